@@ -33,6 +33,10 @@ impl Prop for PDelete {
         base.push("-sorted".into());
         let mut pre: Vec<String> = vec![];
         pre_args(&input["pre"], &mut pre);
+        // "TEST -o -delete": the action is reached where the test is false (and -delete still implies -depth)
+        if input["pre"].get("neg").and_then(|n| n.as_bool()).unwrap_or(false) && !pre.is_empty() {
+            pre.push("-o".into());
+        }
         // twin A: what -depth EXPR -print reports
         let dir_a = fresh_case_dir(&self.sb, &mut self.counter);
         materialize(&dir_a, &tree);
@@ -99,6 +103,9 @@ impl Prop for PDelete {
             1 | 2 => json!({"p": "name", "pat": *rng.pick(&[vec![42u32], vec![97, 42], vec![63], vec![42, 98, 42], vec![91, 97, 45, 99, 93, 42], vec![101]])}),
             _ => json!({"p": "none"}),
         };
+        if v["pre"]["p"] != "none" && rng.chance(1, 3) {
+            v["pre"]["neg"] = json!(true);
+        }
         // names that are not valid UTF-8 are removed like any other (the test before -delete then looks at types only)
         if rng.chance(1, 4) && add_raw_names(&mut v, rng) && v["pre"]["p"] == "name" {
             v["pre"] = json!({"p": "none"});
